@@ -45,6 +45,7 @@ def run_products(ctx, ops, dmax_all, extra_dims, n_custom, wrapper_pass=True, fr
             for op in ops:
                 R.binary(alg, tok, desc, op, kx, ky)
     R.flush()
+    forms_pass(ctx, ops)
     if wrapper_pass:
         wrapper_history_pass(ctx, ops)
 
